@@ -73,27 +73,41 @@ Proof. exact py_table_ok. Qed.
 Print Assumptions C03_interpreter_tables_ok.
 
 (* AT THE LEVEL OF THE TEXT.  Rexpy/Regex.v models the regular-expression syntax rexpy writes (parser from text to
-   quantified character sets, backtracking matcher; compared with CPython re on every evaluated pair).  For any
-   pattern whose fragments are renderable (no extra letters; known categories; non-negative counts), the text
-   rendered for it - escaped or not, with or without \s* padding and capture groups - parses, and the model's
-   reading of the text accepts every string the pattern matches fragment by fragment. *)
-Theorem C03_rendered_text_matches : forall ct full stripped tagged frags text s,
-  forallb frag_renderable frags = true ->
-  vrle2re false full [] stripped tagged frags = Ok text ->
-  matches_frags ct false [] frags s ->
+   quantified character sets - literals, escapes, bracket expressions, the (a|b) alternations of extra letters, capture
+   groups - and a backtracking matcher proved sound and complete for its specification; compared with CPython re on
+   every evaluated pair).  For every set of extra letters Categories can hold (extras8) and any pattern whose fragments
+   are renderable (known categories; non-negative counts), the text rendered for it - escaped or not, with or without
+   \s* padding and capture groups - parses, and the model's reading of the text accepts every string the pattern
+   matches fragment by fragment. *)
+Theorem C03_rendered_text_matches : forall ct e full stripped tagged frags text s,
+  In e extras8 ->
+  forallb (frag_renderable e) frags = true ->
+  vrle2re false full e stripped tagged frags = Ok text ->
+  matches_frags ct false e frags s ->
   re_model_match ct text s = Some true.
 Proof. exact rendered_text_matches. Qed.
 Print Assumptions C03_rendered_text_matches.
 
+(* the extra letters of a run are always one of extras8 *)
+Theorem C03_extras_normalised : forall x, In (norm_extras x) extras8.
+Proof. exact norm_extras_in8. Qed.
+Print Assumptions C03_extras_normalised.
+
 (* ... so one batch extraction covers its working examples as TEXT: each is matched by one of the expressions *)
-Theorem C03_batch_text_covers : forall ct o stripped gt ex merged rex,
-  batch_extract ct o [] stripped gt ex = Ok (merged, rex) ->
+Theorem C03_batch_text_covers : forall ct o e stripped gt ex merged rex,
+  batch_extract ct o e stripped gt ex = Ok (merged, rex) ->
   table_ok ct -> 1 <= z_max_strings_in_group o ->
-  batch_oracle_okb ct o [] stripped gt ex = true ->
-  batch_renderable ct o stripped gt ex = true ->
+  batch_oracle_okb ct o e stripped gt ex = true ->
+  batch_renderable ct o e stripped gt ex = true ->
   forall s, In s (ex_strings ex) -> exists text, In text rex /\ re_model_match ct text s = Some true.
 Proof. exact batch_text_covers. Qed.
 Print Assumptions C03_batch_text_covers.
+
+(* the model's matcher decides its specification (a string is accepted iff it splits into runs each within its
+   character set and count) *)
+Theorem C03_matcher_spec : forall ct items s, match_items ct items s = true <-> lang ct items s.
+Proof. exact match_items_spec. Qed.
+Print Assumptions C03_matcher_spec.
 
 (* The extraction loop (Extractor.extract: sampled attempts, then unsampled passes until a check adds nothing) always
    ends: for every input, option set and oracle, the model's bound on the number of passes -
